@@ -168,6 +168,20 @@ def run_case(c):
             return r
         nasm = len(rx.assemblies)
         arec = O.Recorder(rx)
+        # the gap model and the gap flow of the Core are the ones the input asks for
+        want_model = None if c.get('gap_model', 'flow') == 'none' else c.get('gap_model', 'flow')
+        if rx.core.model != want_model:
+            V.append(violation('gap-model-not-as-input', c, 'the Core runs the gap model %r, the input asks for %r'
+                               % (rx.core.model, want_model), rx.core.model, want_model, None,
+                               site='reactor.py:_setup_core'))
+        elif want_model == 'flow':
+            wf = c['gapfrac'] / (1.0 - c['gapfrac']) * sum(float(a.flow_rate) for a in rx.assemblies)
+            if abs(float(rx.core.gap_flow_rate) - wf) > 1e-12 * wf or \
+                    abs(float(np.sum(rx.core._sc_mfr)) - wf) > 1e-9 * wf:
+                V.append(violation('gap-flow-not-as-input', c, 'gap flow of the Core (total / sum over the gap cells) is '
+                                   'not bypass_fraction x core flow', [float(rx.core.gap_flow_rate),
+                                                                       float(np.sum(rx.core._sc_mfr))], wf, 1e-9 * wf,
+                                   site='core.py:load'))
         grec = GapRecorder(rx, arec) if rx.core.model is not None else None
         cap = c.get('max_steps', 60)
         full = len(rx.z) - 1
@@ -314,13 +328,17 @@ def cases(tier):
         for lay in (['A', 'A2', 'A', 'A2', 'A', 'A', 'A2'], ['A2', 'A', 'A2', None, 'A', 'A2', 'A']):
             out.append({'layout': lay, 'gapfrac': 0.05, 'gap_model': 'flow', 'max_steps': 40})
         # a very small gap flow (still the flowing-gap model)
-        for lay in full[:2]:
-            out.append({'layout': lay, 'gapfrac': 0.0005, 'gap_model': 'flow', 'max_steps': 60})
+        for lay in (['A', 'B', 'A', None, None, None, None], ['D', None, 'A', 'U', None, None, None]):
+            out.append({'layout': lay, 'gapfrac': 0.0008, 'gap_model': 'flow', 'max_steps': 30})
         for lay in full:
             out.append({'layout': lay, 'gapfrac': 0.05, 'gap_model': 'flow', 'max_steps': 60, 'ftf': 'outer-first'})
     else:
         for lay in layouts7(['A', 'B', 'U', 'D', 'S'], 2, 2):
             out.append({'layout': lay, 'gapfrac': 0.05, 'gap_model': 'flow', 'max_steps': 40, 'ftf': 'outer-first'})
+        for lay in layouts7(['A', 'A2'], 2, 3):
+            out.append({'layout': lay, 'gapfrac': 0.05, 'gap_model': 'flow', 'max_steps': 40})
+        for lay in layouts7(['A', 'B', 'D'], 2, 2):
+            out.append({'layout': lay, 'gapfrac': 0.0008, 'gap_model': 'flow', 'max_steps': 30})
         for lay in layouts7(['A', 'B', 'U']):
             out.append({'layout': lay, 'gapfrac': 0.05, 'gap_model': 'flow', 'max_steps': 25})
         for lay in layouts7(['A', 'B', 'C', 'U', 'D', 'Ds', 'S', 'S5'], 1, 2):
